@@ -65,3 +65,75 @@ Example C07_nontrivial :
   next_config [mkSrv 0 1 1] 7 (mkReq 3 1 0 0) = None /\                                (* last voter *)
   next_config cur 7 (mkReq 4 4 0 0) = Some [mkSrv 0 1 1; mkSrv 0 2 2; mkSrv 1 3 3; mkSrv 0 4 4]. (* promote *)
 Proof. vm_compute. repeat split. Qed.
+
+(* ------------------------------------------------------------------------------------------------
+   Serialisation over ALL runs of one leadership (Proofs/LeaderGateSpec.v; proofs LeaderGateA.v,
+   LeaderGateProofs.v).  The system is the leader-operation transition system of Model/LeaderCodec.v
+   (dispatchLogs, match reports, the commitCh case, appendConfigurationEntry, restoreUserSnapshot,
+   verifyLeader in any order, any number, with store failures), tied to the real leader code by
+   component 8; leader_run takes an operation only while the role is Leader and a membership change only
+   when configurationChangeChIfStable() would return the channel (the regenerated decision tree of that
+   function is proved equal to config_gate_open below).
+   My first statements were refuted by the prover sub-agent with compiled counterexamples
+   (gate_serialises_is_false: dispatchLogs handed a configuration entry directly, which no caller does;
+   gate_serialises_is_false_empty_run / own_term_entries_is_false: a start state whose log holds entries
+   beyond its own last index).  The corrected statements name those two conditions. *)
+From RaftModel Require Import Node Leader LeaderCodec.
+From RaftProofs Require Import LeaderGateSpec LeaderGateA LeaderGateProofs.
+
+(* "a leader appends a new configuration only after the previous one is committed and after an entry of
+   its own term is committed, so no log ever holds two uncommitted configurations" - the leader's part:
+   whenever the gate is open the latest configuration and the first index of this leadership are at or
+   below the commit index; at most one configuration entry of this leadership is above the commit index,
+   it is the latest configuration, and while it is there the gate is closed *)
+Theorem C07_membership_changes_serialised_all_leader_runs :
+  forall P tab s0 ops ls vf,
+  leader_start_ok s0 ->
+  (forall i e, d_log s0 !! i = Some e -> e_ty e = LogConfiguration -> e_idx e <= last_index s0) ->
+  forallb no_config_req ops = true ->
+  leader_run P tab (leader_setup s0) None ops = Some (ls, vf) ->
+  (config_gate_open ls = true ->
+     v_latestIdx (l_node ls) <= v_commit (l_node ls) /\ last_index s0 + 1 <= v_commit (l_node ls)) /\
+  (length (pending_configs (last_index s0) (l_node ls)) <= 1)%nat /\
+  (forall e, In e (pending_configs (last_index s0) (l_node ls)) ->
+     e_idx e = v_latestIdx (l_node ls) /\ config_gate_open ls = false).
+Proof. exact gate_serialises_corrected_holds. Qed.
+Print Assumptions C07_membership_changes_serialised_all_leader_runs.
+
+(* every entry created during the leadership carries the leader's term, which does not change: the first
+   index of the leadership being committed IS an entry of its own term being committed *)
+Theorem C07_entries_of_a_leadership_carry_its_term :
+  forall P tab s0 ops ls vf,
+  leader_start_ok s0 ->
+  (forall i e, d_log s0 !! i = Some e -> i <= last_index s0) ->
+  leader_run P tab (leader_setup s0) None ops = Some (ls, vf) ->
+  v_term (l_node ls) = v_term s0 /\
+  forall i e, last_index s0 < i -> d_log (l_node ls) !! i = Some e -> e_term e = v_term s0 /\ e_idx e = i.
+Proof. exact own_term_entries_corrected_holds. Qed.
+Print Assumptions C07_entries_of_a_leadership_carry_its_term.
+
+(* a change taken along any run replaces a configuration that is committed at the leader, by one that
+   differs in the vote and membership of at most the server it names, and is well formed *)
+Theorem C07_each_change_replaces_a_committed_configuration_by_one_server : changes_one_at_a_time.
+Proof. exact changes_one_at_a_time_holds. Qed.
+Print Assumptions C07_each_change_replaces_a_committed_configuration_by_one_server.
+
+(* without the gate two configuration entries of one leadership are above the commit index *)
+Theorem C07_gate_is_necessary : gate_is_necessary.
+Proof. exact gate_is_necessary_holds. Qed.
+
+(* the first statements, kept as refuted *)
+Theorem C07_first_statement_needs_dispatch_discipline : ~ gate_serialises.
+Proof. exact gate_serialises_is_false. Qed.
+
+(* non-vacuity: a run with two successive membership changes is accepted *)
+Example C07_serialisation_nonvacuous := gate_nonvacuous.
+
+(* Tie 2 (translator, every run): the decision tree of configurationChangeChIfStable, regenerated from
+   raft.go (Model/GenTrees.v), returns the channel exactly when Model/Leader.v config_gate_open holds, for
+   every leader state - so "LConfig only with the gate open" in leader_run above is what leaderLoop does *)
+From RaftModel Require Import GenTrees Trees.
+From RaftProofs Require Import GenTreesSpec GenTreesProofs.
+Theorem C07_regenerated_gate_is_the_model : gate_tree_agrees.
+Proof. exact gate_tree_agrees_holds. Qed.
+Print Assumptions C07_regenerated_gate_is_the_model.
